@@ -646,6 +646,8 @@ class Target(DataExchangeProtocol):
                 try:
                     frame = self.clf.exchange(frame, timeout=timeout)
                 except nfc.clf.TransmissionError:
+                    if time.time() >= deadline:
+                        raise  # do not listen beyond the deadline
                     frame = None
                 else:
                     break
